@@ -649,6 +649,16 @@ impl Stream for Substream {
                                                     }
                                                 }
 
+                                                // Without a configured maximum the size is still
+                                                // bounded by what can be allocated at all.
+                                                if size > isize::MAX as usize {
+                                                    return Poll::Ready(Some(Err(
+                                                        SubstreamError::ReadFailure(Some(
+                                                            this.substream_id,
+                                                        )),
+                                                    )));
+                                                }
+
                                                 this.offset = 0;
                                                 // Handle empty payloads detected as 0-length frame.
                                                 // The offset must be cleared to 0 to not interfere
